@@ -32,20 +32,41 @@ def grad_fd(w0, c, counts):
     return gw, gc
 
 
+def grad_exact(w0, c, counts):
+    """analytic gradient of the stated mixture with numerically stable responsibilities (for long histograms,
+    where central differences lose too many digits)"""
+    gw = gc = 0.0
+    for i, n in enumerate(counts, start=1):
+        x = log_ratio(w0, c, i)                    # ln(error part) - ln(coverage part)
+        if x >= 0:
+            t = math.exp(-x)
+            ra, rb = 1.0 / (1.0 + t), t / (1.0 + t)
+        else:
+            t = math.exp(x)
+            ra, rb = t / (1.0 + t), 1.0 / (1.0 + t)
+        gw += n * (ra / w0 - rb / (1.0 - w0))
+        gc += n * rb * (i / c - 1.0)
+    return gw, gc
+
+
 def close(a, b_, rel=1e-4):
+    if a is None or b_ is None or a != a or b_ != b_:      # NaN (serialised as null) is never close
+        return False
     return abs(a - b_) <= rel * max(1.0, abs(a), abs(b_))
 
 
 def grad_events(rng, n):
     """hooked log_likelihood / grad_ll at random parameter points on random histograms"""
     ops, meta = [], []
-    for _ in range(n):
-        m = rng.randint(3, 60)
-        cpeak = rng.uniform(2, m)
+    for gi in range(n):
+        # every fourth histogram is long (a high-copy plasmid / very deep coverage: hundreds of rows)
+        long_ = gi % 4 == 3
+        m = rng.randint(150, 500) if long_ else rng.randint(3, 60)
+        cpeak = rng.uniform(2, min(m, 120))
         counts = [max(0.0, round(1000 * math.exp(-0.5 * ((i - cpeak) / max(1.5, math.sqrt(cpeak))) ** 2) + 5000 * math.exp(-1.5 * i)
                                  + rng.randint(0, 30))) for i in range(1, m + 1)]
-        w0 = rng.uniform(0.01, 0.99)
-        c = rng.uniform(1.0, 80.0)
+        w0 = rng.uniform(0.01, 0.99) if gi % 3 else rng.choice([1e-6, 1e-3, 0.5, 0.999, 1 - 1e-6])
+        c = rng.uniform(1.0, 150.0 if long_ else 80.0)
         ops.append({"op": "cov", "what": "ll", "pars": [w0, c], "counts": counts})
         meta.append((w0, c, counts))
     evs = vlib.skav("exec", ops)
@@ -54,11 +75,11 @@ def grad_events(rng, n):
         if ev.get("panic"):
             out.append({"ev": "cov.grad", "panic": ev["panic"], "w0": w0, "c": c, "grad_ok": False, "ll_ok": False})
             continue
-        gw, gc = grad_fd(w0, c, counts)
+        gw, gc = grad_fd(w0, c, counts) if len(counts) <= 60 and 0.01 <= w0 <= 0.99 else grad_exact(w0, c, counts)
         out.append({"ev": "cov.grad", "panic": "", "w0": w0, "c": c, "ncounts": len(counts),
                     "ll_ok": close(ev["ll"], mix_ll(w0, c, counts), 1e-9),
                     "grad_ok": close(ev["grad"][0], gw) and close(ev["grad"][1], gc),
-                    "grad": ev["grad"], "fd": [gw, gc]})
+                    "grad": ["NaN" if x is None else x for x in ev["grad"]], "fd": [gw, gc]})
     return out
 
 
@@ -138,15 +159,22 @@ def run(run, tier, seed):
     rng = random.Random(seed + 20)
     events += grad_events(rng, 60 if tier == "quick" else 400)
     run.evaluations += len(events)
+    vlib.log("gradient events done")
     tmp = vlib.shm_dir("c20")
     try:
         nruns = 6 if tier == "quick" else 40
-        for ri in range(nruns + 2):
+        for ri in range(nruns + 3):
             k = rng.choice([9, 15, 21, 31, 33, 41]) if ri else 31
             rc = ri % 3 != 0
             cov = rng.randint(10, 30) if tier == "quick" else rng.randint(10, 80)
             glen = int(max(600, 140 * math.sqrt(cov))) + rng.randint(0, 300)
-            if ri >= nruns:
+            if ri == nruns + 2:
+                # a high-copy element: the table runs on to a multiplicity of about 200 (mostly empty rows)
+                k, rc = 21, True
+                hist = {1: 600, 2: 80, 9: 55, 10: 60, 11: 80, 12: 100, 13: 80, 14: 60, 199: 10, 200: 52, 201: 5}
+                reads = designed_reads(rng, k, hist)
+                cov, glen = 12, sum(hist.values())
+            elif ri >= nruns:
                 # designed histograms: the last tabulated multiplicity is shared by EXACTLY 50 (then 51) k-mers
                 k = 15 if ri == nruns else 33
                 rc = True
@@ -161,9 +189,13 @@ def run(run, tier, seed):
             write_fastq(f1, reads[:half], ["I" * len(r) for r in reads[:half]])
             write_fastq(f2, reads[half:], ["5" * len(r) for r in reads[half:]])
             args = ["cov", f1, f2, "-k", str(k)] + ([] if rc else ["--single-strand"])
-            rcode, so, se = vlib.ska_cli(args)
-            fit = vlib.skav("exec", [{"op": "cov", "what": "fit", "k": k, "rc": rc, "f1": f1, "f2": f2}])[0]
+            rcode, so, se = vlib.ska_cli(args, timeout=300)
             run.evaluations += 1
+            if rcode == 124:
+                # the fit is a bounded number of BFGS iterations over a table of a few hundred rows: seconds at most
+                events.append({"ev": "cov", "id": ri, "panic": "ska cov did not terminate within 300 s", "reads": len(reads), "k": k})
+                continue
+            fit = vlib.skav("exec", [{"op": "cov", "what": "fit", "k": k, "rc": rc, "f1": f1, "f2": f2}])[0]
             if rcode == 0 and fit.get("converged") and not (1e-9 < fit["w0"] < 1 - 1e-9 and fit["c"] >= 1.0):
                 run.notes.append("run %d: fitted parameters on the boundary (w0=%r c=%r): the oracle is undefined there (trivial)" % (ri, fit["w0"], fit["c"]))
                 continue
@@ -194,9 +226,12 @@ def run(run, tier, seed):
                 run.nontriv(["cov", reads[:3], k, rc, len(reads)])
     finally:
         shutil.rmtree(tmp, ignore_errors=True)
+    vlib.log("cov runs done")
     import extras
     extras.auto_min_count(run, tier, seed)      # Cli.tla: --min-count auto composes cov and build (drift only)
+    vlib.log("auto-min-count done")
     ok, bad, states = vlib.validate_trace("Trace_Cov", events, "c20", shards=12, timeout=600)
+    vlib.log("trace validated")
     run.states += states
     run.transitions += len(events)
     run.events += ok
